@@ -17,7 +17,7 @@ open LyModel LyModel.Tree
 
 inductive AErr where
   | einval | eint
-  deriving Repr, BEq, DecidableEq
+  deriving Repr, DecidableEq
 
 def AErr.name : AErr → String
   | .einval => "Einval" | .eint => "Eint"
